@@ -45,3 +45,147 @@ class OrderDomain(Domain):
                 return a if ra >= rb else b
             return a if ra <= rb else b
         raise Unsupported("call of %s on tokens" % name)
+
+
+# ---------------------------------------------------------------- Poly
+import math
+from fractions import Fraction
+import poly as P
+
+
+def _ulp(x):
+    return math.ulp(abs(x)) if x != 0 else 5e-324
+
+
+def recognise_constant(x):
+    """exact algebraic value of a double literal: small rationals, rational
+    multiples of sqrt2/sqrt3/sqrt6 (within 2 ulp: products of literals are
+    rounded by the compiler), else the exact dyadic value (always sound)."""
+    if x == 0:
+        return P.Rat(0), "0"
+    r = Fraction(x).limit_denominator(100000)
+    if float(r) == x:
+        return P.Rat(P.Poly.const(r)), str(r)
+    for sym, val, nm in ((P.SQRT2(), math.sqrt(2.0), "sqrt2"), (P.SQRT3(), math.sqrt(3.0), "sqrt3"),
+                         (P.SQRT2() * P.SQRT3(), math.sqrt(6.0), "sqrt6")):
+        q = Fraction(x / val).limit_denominator(5000)
+        if q != 0 and abs(float(q) * val - x) <= 2 * _ulp(x):
+            return P.Rat(sym.scale(q)), "%s*%s" % (q, nm)
+    return P.Rat(P.Poly.const(Fraction(x))), "dyadic(%r)" % x
+
+
+class PolyDomain(Domain):
+    """floats are exact rational functions of the input symbols over
+    Q(sqrt2, sqrt3) with radical/application atoms; comparisons fork."""
+    name = "Poly"
+
+    def __init__(self):
+        self.constants = {}
+        self.atoms = {}
+        self.apps = {}
+
+    def sym(self, name):
+        return P.Rat.var(name)
+
+    def zero(self):
+        return P.Rat(0)
+
+    def const(self, fc):
+        x = fc.as_float()
+        if math.isnan(x) or math.isinf(x):
+            return ("special", fc.repr)
+        v, how = recognise_constant(x)
+        self.constants[fc.repr] = how
+        return v
+
+    def from_int(self, i):
+        return P.Rat(i)
+
+    def _r(self, a):
+        if isinstance(a, P.Rat):
+            return a
+        raise Unsupported("non-algebraic float value %r" % (a,))
+
+    def arith(self, op, a, b):
+        a, b = self._r(a), self._r(b)
+        if op == "fadd":
+            return a + b
+        if op == "fsub":
+            return a - b
+        if op == "fmul":
+            return a * b
+        if op == "fdiv":
+            if b.is_zero():
+                raise Unsupported("division by an identically zero expression")
+            return a / b
+        raise Unsupported(op)
+
+    def neg(self, a):
+        return -self._r(a)
+
+    def fcmp(self, pred, a, b, m):
+        if pred == "ord":
+            return 1
+        if pred == "uno":
+            return 0
+        if isinstance(a, tuple) or isinstance(b, tuple):
+            raise Unsupported("comparison with a special value")
+        d = a - b
+        if d.is_const():
+            c = d.n.const_value() / d.d.const_value() if not d.n.is_zero() else Fraction(0)
+            base = pred[1:] if pred[0] in "ou" else pred
+            return int({"eq": c == 0, "ne": c != 0, "gt": c > 0, "ge": c >= 0, "lt": c < 0, "le": c <= 0}[base])
+        return ("cond", (pred, a, b))
+
+    def atom(self, kind, k, arg):
+        """radical atom kind(arg) with relation atom**k = arg (arg polynomial)."""
+        key = (kind, arg.key())
+        if key not in self.atoms:
+            name = "%s#%d" % (kind, len(self.atoms))
+            if arg.d.is_const():
+                a = P.define_atom(name, k, arg.n)
+                self.atoms[key] = (P.Rat(a), name, arg)
+            else:
+                # sqrt(n/d) = sqrt(n*d)/d ; cbrt(n/d) = cbrt(n*d*d)/d
+                inner = P.Rat(arg.n * (arg.d ** (k - 1)))
+                a = P.define_atom(name, k, inner.n)
+                self.atoms[key] = (P.Rat(a) / P.Rat(arg.d), name, arg)
+        return self.atoms[key][0]
+
+    def call(self, name, args, m):
+        if name in ("sqrt", "sqrtf"):
+            a = self._r(args[0])
+            if a.is_const():
+                c = a.n.const_value() / a.d.const_value() if not a.n.is_zero() else Fraction(0)
+                if c >= 0:
+                    rn, rd = math.isqrt(c.numerator), math.isqrt(c.denominator)
+                    if rn * rn == c.numerator and rd * rd == c.denominator:
+                        return P.Rat(Fraction(rn, rd))
+                    if c == 2:
+                        return P.Rat(P.SQRT2())
+                    if c == 3:
+                        return P.Rat(P.SQRT3())
+            return self.atom("sqrt", 2, a)
+        if name in ("cbrt", "cbrtf"):
+            return self.atom("cbrt", 3, self._r(args[0]))
+        if name in ("fabs", "fabsf"):
+            a = self._r(args[0])
+            if a.is_const():
+                c = a.n.const_value() / a.d.const_value() if not a.n.is_zero() else Fraction(0)
+                return P.Rat(abs(c))
+            # |a| is a or -a: fork on the sign
+            d = m.decide(("sign", a))
+            return a if d else -a
+        if name in ("maxnum", "minnum", "fmax", "fmin"):
+            a, b = self._r(args[0]), self._r(args[1])
+            d = m.decide((name, a, b))
+            return a if d else b
+        # application atom of an opaque external function
+        if all(isinstance(a, P.Rat) for a in args):
+            key = (name, tuple(a.key() for a in args))
+            if key not in self.apps:
+                an = "%s@%d" % (name, len(self.apps))
+                self.apps[key] = (P.Rat.var(an), an, list(args))
+            m.trace.append((name, list(args)))
+            return self.apps[key][0]
+        raise Unsupported("call of %s" % name)
